@@ -831,6 +831,19 @@ def _eval_bool(ctx, t, env, props=None):
             x, y = _eval_rat(ctx, a[0], env), _eval_rat(ctx, a[1], env)
             if x is not None and y is not None:
                 return {"eq": x == y, "ne": x != y, "lt": x < y, "le": x <= y}[h[1]]
+        if h[0] == "cmp" and h[1] in ("in", "notin") and props is not None:
+            # membership in a literal collection of constants is the disjunction of the equalities with its members
+            hc = ctx.head_of(a[1])
+            if hc and hc[0] in ("list", "tuple", "set") and ctx.args_of(a[1]) and \
+                    all((ctx.head_of(m) or ("",))[0] in ("str", "const") or m.is_const() for m in ctx.args_of(a[1])):
+                vals = []
+                for m in ctx.args_of(a[1]):
+                    l_, r_ = (a[0], m) if a[0].key() <= m.key() else (m, a[0])
+                    vals.append(_eval_bool(ctx, ctx.mk(("cmp", "eq"), (l_, r_)), env, props))
+                if any(x is None for x in vals):
+                    return None
+                res = any(vals)
+                return res if h[1] == "in" else not res
     val = _eval_rat(ctx, t, env)
     if val is not None:
         return bool(val)
@@ -849,6 +862,19 @@ def _eval_bool(ctx, t, env, props=None):
     if b is None:
         return None
     return (not b) if neg else b
+
+
+def _key_is_constant(ctx, key):
+    """the term with this key is a literal (string / number / None / True / False)"""
+    num, den = key
+    if len(num) == 0:
+        return True
+    if len(den) == 1 and den[0][0] == () and all(m == () for m, c in num):
+        return True
+    if len(num) == 1 and len(den) == 1 and den[0][0] == () and len(num[0][0]) == 1 and num[0][0][0][1] == 1 and num[0][1] == 1:
+        hd = ctx.atoms[num[0][0][0][0]][0]
+        return hd[0] in ("str", "const")
+    return False
 
 
 def order_equiv(ctx, t1, t2, variables, pre=None, lo=1):
@@ -897,14 +923,30 @@ def order_equiv(ctx, t1, t2, variables, pre=None, lo=1):
         for k in pending:
             props[k] = False
     keys = sorted(props, key=repr)
-    if len(keys) > 10:
+    if len(keys) > 12:
         return None
+    # equalities of one term with two different constants exclude each other
+    excl = []
+    const_eq = {}
+    for k in keys:
+        if k[0] == "cmp" and k[1] == "eq" and len(k[2]) == 2:
+            for i_ in (0, 1):
+                other, cst = k[2][i_], k[2][1 - i_]
+                if _key_is_constant(ctx, cst):
+                    const_eq.setdefault(other, []).append((k, cst))
+    for other, lst in const_eq.items():
+        for i_ in range(len(lst)):
+            for j_ in range(i_ + 1, len(lst)):
+                if lst[i_][1] != lst[j_][1]:
+                    excl.append((lst[i_][0], lst[j_][0]))
     for vals in itertools.product(range(lo, hi + 1), repeat=len(ids)):
         if pre is not None and not pre(vals):
             continue
         env = {i: Fraction(x) for i, x in zip(ids, vals)}
         for bits in itertools.product((False, True), repeat=len(keys)):
             pr = dict(zip(keys, bits))
+            if excl and any(pr[k1] and pr[k2] for k1, k2 in excl):
+                continue        # x == 'a' and x == 'b' cannot both hold
             n0 = len(pr)
             b1, b2 = _eval_bool(ctx, t1, env, pr), _eval_bool(ctx, t2, env, pr)
             if b1 is None or b2 is None or len(pr) != n0:
